@@ -2,6 +2,7 @@ package props
 
 import (
 	"fmt"
+	"strconv"
 	"strings"
 
 	jd "github.com/josephburnett/jd/v2"
@@ -352,14 +353,25 @@ func c03Case(c *mon.Ctx, aText, bText string, prof gen.Profile, exhaustiveSubset
 	}
 }
 
+// longNumbers: float64 values that need 16 or 17 significant digits, each with
+// the value its 15-digit rounding denotes.
+var longNumbers = func() []any {
+	var out []any
+	for _, x := range []float64{0.1 + 0.2, 1.0 / 3, 2.0 / 3, 1234567890123456, 9007199254740991, 1e21 / 7, 0.1234567890123456789, -98765.432101234567, 1 - 1e-16} {
+		y, _ := strconv.ParseFloat(strconv.FormatFloat(x, 'g', 15, 64), 64)
+		out = append(out, x, y)
+	}
+	return append(out, "s", 1.0)
+}()
+
 func init() {
 	p := &mon.Property{
 		ID: "C03",
 		Rule: "cases are (a, b) list-mode pairs; for each, the full diff and sub-sequences of its hunks (all 2^n-1 for n<=4 in the exhaustive strata, the full diff + a random subset + a single hunk otherwise) " +
-			"are applied, in memory or after a render/re-read, to targets a, b, a perturbed exactly at the edited array (shift, neighbour changed, removed element changed, truncated, emptied) and a randomly perturbed at any depth; " +
+			"are applied, in memory or after a render/re-read, to targets a, b, a perturbed exactly at the edited array (shift, neighbour changed, removed element changed, truncated, emptied) and a randomly perturbed at any depth; one stratum uses numbers that need 16-17 significant digits next to their 15-digit roundings; " +
 			"every Patch event is compared with the reference hunk interpreter (apply/reject must agree, results must be equal); non-trivial = target differs from a and some hunk has element context; distinct = distinct (a, b, subset, target)",
 		Floors: map[string]int{"patch_events": 100000, "both_apply": 20000, "both_reject": 20000, "edited_array_depth>=1": 5000, "edited_array_depth>=2": 2000,
-			"reject:before context": 500, "reject:after context": 500, "reject:remove": 500, "reject:index": 100, "proper_subset": 10000, "patched_via_text": 10000, "patched_in_memory": 10000},
+			"reject:before context": 500, "reject:after context": 500, "reject:remove": 500, "reject:index": 100, "proper_subset": 10000, "patched_via_text": 10000, "patched_in_memory": 10000, "long_mantissa_pairs": 3000},
 		Assumptions: []string{
 			"the reference interpreter (ref.RefPatch) encodes the documented hunk semantics: strict key hunks expect the old value or absence; list hunks use the index in the current document, before/after context equal to the adjacent elements or the array boundary, every removed value equal to the element then at the index",
 			"only hunks jd itself generated (and sub-sequences of them) are used, as the property states; hand-written shapes belong to C02/C13",
@@ -376,6 +388,20 @@ func init() {
 		},
 	})
 	p.Strata = append(p.Strata, mon.Stratum{
+		Name: "numbers-needing-17-digits",
+		N:    qt(6000, 300000),
+		Run: func(c *mon.Ctx, i int) {
+			// numbers whose shortest exact spelling has 16-17 significant digits, next to their
+			// 15-digit roundings: an expectation stated in a patch text must be the exact number
+			prof := gen.PTiny.With(func(p *gen.Profile) { p.Scalars = longNumbers })
+			arrA := gen.Array(c.R, prof, c.R.Range(1, 6), 0.1)
+			arrB := mutateScalarArray(c.R, prof, arrA)
+			w := i % 3
+			c.Feature("long_mantissa_pairs")
+			c03Case(c, ref.ToJSON(gen.Wrap(arrA, w)), ref.ToJSON(gen.Wrap(arrB, w)), prof, false)
+		},
+	})
+	p.Strata = append(p.Strata, mon.Stratum{
 		Name: "nested-arrays-biased",
 		N:    qt(20000, 600000),
 		Run: func(c *mon.Ctx, i int) {
@@ -389,8 +415,13 @@ func init() {
 	for w, name := range []string{"root", "under-key", "in-array", "array-in-object-in-array"} {
 		w := w
 		p.Strata = append(p.Strata, mon.Stratum{
-			Name:       "exh-k3n4-all-subsets/" + name,
-			N:          func(t mon.Tier) int { if t == mon.Thorough || w < 2 { return len(arraysK3N4) * len(arraysK3N4) }; return len(arraysK3N4) * len(arraysK3N4) / 4 },
+			Name: "exh-k3n4-all-subsets/" + name,
+			N: func(t mon.Tier) int {
+				if t == mon.Thorough || w < 2 {
+					return len(arraysK3N4) * len(arraysK3N4)
+				}
+				return len(arraysK3N4) * len(arraysK3N4) / 4
+			},
 			Exhaustive: func(t mon.Tier) bool { return t == mon.Thorough || w < 2 },
 			Run: func(c *mon.Ctx, i int) {
 				if c.Tier != mon.Thorough && w >= 2 {
